@@ -79,6 +79,12 @@ theorem members_src (m : Members) (h : MSorted m) : m.src = specL m ∧ Sorted (
 
 /-! ### the invariant -/
 
+theorem lt_of_getElem? {α} {l : List α} {j : Nat} {a : α} (h : l[j]? = some a) : j < l.length := by
+  by_cases hc : j < l.length
+  · exact hc
+  · rw [List.getElem?_eq_none (Nat.le_of_not_lt hc)] at h; cases h
+
+
 structure Good (st : RSetState) (tr : Track) : Prop where
   m_eq : st.m = tr.m
   msorted : MSorted tr.m
@@ -98,17 +104,32 @@ structure Good (st : RSetState) (tr : Track) : Prop where
         tr.opened[j]? = some (tr.muts, c) →
         (h.udone = true → (specL tr.m).length ≤ c) ∧
         (h.udone = false → (h.usrc = none ∧ h.upos = 0 ∧ c = 0) ∨ (h.usrc = some (specL tr.m) ∧ h.upos = c))
+  /-- a bound `_iter()` generator of an uncached set carries the generation it was bound in; one bound in the current
+      generation is bound to the current sequence (so the `_len` it may publish is the right one) -/
+  hgen : st.cacheOn = false → ∀ (j : Nat) (h : Handle), st.handles[j]? = some h → h.usrc.isSome = true →
+        h.gen ≤ st.old.length ∧ (h.gen = st.old.length → h.usrc = some (specL tr.m))
+  /-- cached set: no handle is of a future generation; the handles of the CURRENT generation (whatever the bookkeeping says
+      about them: an iterator created before a mutator but first advanced after it belongs to the current generation) own
+      distinct plain-iterator threads of the current machine -/
+  hgle : st.cacheOn = true → ∀ (j : Nat) (h : Handle), st.handles[j]? = some h → h.gen ≤ st.old.length
+  hcg : st.cacheOn = true → ∀ (j : Nat) (h : Handle), st.handles[j]? = some h → h.gen = st.old.length →
+        ∃ it : Iter, st.cur.its[h.tid]? = some it ∧ it.q = .iterAll
+  hdg : st.cacheOn = true → ∀ (j j' : Nat) (h h' : Handle), st.handles[j]? = some h → st.handles[j']? = some h' →
+        h.gen = st.old.length → h'.gen = st.old.length → h.tid = h'.tid → j = j'
 
 theorem good_init (c : Bool) : Good (newState c) {} := by
-  refine ⟨rfl, ?_, rfl, rfl, (show ([] : List Int) = specL {} by decide), ?_, ?_, ?_, ?_, ?_, ?_⟩
+  refine ⟨rfl, ?_, rfl, rfl, (show ([] : List Int) = specL {} by decide), ?_, ?_, ?_, ?_, ?_, ?_, ?_,
+    fun _ j h hh => by simp [newState] at hh, fun _ j h hh => by simp [newState] at hh,
+    fun _ j j' h h' hh => by simp [newState] at hh⟩
   · intro s hs; simp at hs
   · intro j m0 c h; simp at h
   · intro _
-    exact ⟨inv_init [] [], fun t it h => by simp [newState] at h⟩
+    exact ⟨inv_init [] [], fun t it h => by simp [newState] at h, rfl⟩
   · intro _; exact Or.inl rfl
   · intro _ j h c hh; simp [newState] at hh
   · intro _ j j' h h' c c' hh; simp [newState] at hh
   · intro _ j h c hh; simp [newState] at hh
+  · intro _ j h hh; simp [newState] at hh
 
 /-- a mutator: every kept iterator becomes stale, the object starts a fresh generation -/
 theorem good_mutate {st : RSetState} {tr : Track} (hg : Good st tr) (m' : Members) (hm' : MSorted m') :
@@ -118,18 +139,31 @@ theorem good_mutate {st : RSetState} {tr : Track} (hg : Good st tr) (m' : Member
     intro j c h
     have := hg.older j _ c h
     omega
-  refine ⟨rfl, hm', ?_, hg.hlen, hsrc.1, ?_, ?_, ?_, ?_, ?_, ?_⟩
+  have hfut : ∀ (hco : st.cacheOn = true) (j : Nat) (h : Handle), st.handles[j]? = some h → h.gen = (st.cur :: st.old).length → False := by
+    intro hco j h hh e
+    have := hg.hgle hco j h hh
+    simp only [List.length_cons] at e; omega
+  refine ⟨rfl, hm', ?_, hg.hlen, hsrc.1, ?_, ?_, ?_, ?_, ?_, ?_, ?_,
+    fun hco j h hh => by have := hg.hgle hco j h hh; show h.gen ≤ (st.cur :: st.old).length; simp only [List.length_cons]; omega,
+    fun hco j h hh e => (hfut hco j h hh e).elim, fun hco j j' h h' hh _ e => (hfut hco j h hh e).elim⟩
   · simp [invalidate, hg.gens]
   · intro j m0 c h
     have := hg.older j m0 c h
     show m0 ≤ tr.muts + 1
     omega
   · intro _
-    exact ⟨inv_init m'.src [], fun t it h => by simp [invalidate] at h⟩
+    exact ⟨inv_init m'.src [], fun t it h => by simp [invalidate] at h, rfl⟩
   · intro _; exact Or.inl rfl
   · intro _ j h c _ ho; exact (hnot j c ho).elim
   · intro _ j j' h h' c c' _ _ ho; exact (hnot j c ho).elim
   · intro _ j h c _ ho; exact (hnot j c ho).elim
+  · intro hco j h hh hb
+    have := (hg.hgen hco j h hh hb).1
+    refine ⟨?_, fun e => ?_⟩
+    · show h.gen ≤ (st.cur :: st.old).length
+      simp only [List.length_cons]; omega
+    · have e' : h.gen = (st.cur :: st.old).length := e
+      simp only [List.length_cons] at e'; omega
 
 theorem runUncached_spec (sh : Shared) (q : Query) (L : List Int) (hsmall : fits q L) (hsrc : sh.src = L) (hL : Sorted L)
     (hlen : sh.len = none ∨ sh.len = some L.length) :
@@ -158,7 +192,12 @@ theorem good_query {st : RSetState} {tr : Track} (hg : Good st tr) (q : Query) (
     obtain ⟨r1, r2, r3, r4, r5, r6⟩ := runQuery_spec hi hp hs q (by rw [hg.src]; exact hsmall)
     simp only [applyOp, hco, ↓reduceIte]
     refine ⟨by rw [r1, hg.src], ⟨hg.m_eq, hg.msorted, hg.gens, hg.hlen, r4.trans hg.src, hg.older,
-      fun _ => ⟨r2, r3⟩, fun h => by simp [hco] at h, ?_, fun _ => hg.hd hco, fun h => by simp [hco] at h⟩⟩
+      fun _ => ⟨r2, r3⟩, fun h => by simp [hco] at h, ?_, fun _ => hg.hd hco, fun h => by simp [hco] at h,
+      fun h => by simp [hco] at h, fun _ => hg.hgle hco, ?_, fun _ => hg.hdg hco⟩⟩
+    rotate_left
+    · intro _ j h hh hgn
+      obtain ⟨it, e2, e3⟩ := hg.hcg hco j h hh hgn
+      exact ⟨it, (r5 h.tid (lt_of_getElem? e2)).trans e2, e3⟩
     intro _ j h c hh ho
     obtain ⟨e1, it, e2, e3, e4⟩ := hg.hc hco j h c hh ho
     refine ⟨e1, it, ?_, e3, e4⟩
@@ -172,7 +211,8 @@ theorem good_query {st : RSetState} {tr : Track} (hg : Good st tr) (q : Query) (
     obtain ⟨r1, r2, r3⟩ := runUncached_spec st.cur.sh q _ hsmall hg.src hsorted (hg.ulen hco)
     simp only [applyOp, hco, Bool.false_eq_true, ↓reduceIte]
     exact ⟨r1, ⟨hg.m_eq, hg.msorted, hg.gens, hg.hlen, r2, hg.older, fun h => by simp [hco] at h,
-      fun _ => r3, fun h => by simp [hco] at h, fun h => by simp [hco] at h, fun _ => hg.hu hco⟩⟩
+      fun _ => r3, fun h => by simp [hco] at h, fun h => by simp [hco] at h, fun _ => hg.hu hco, fun _ => hg.hgen hco,
+      fun h => by simp [hco] at h, fun h => by simp [hco] at h, fun h => by simp [hco] at h⟩⟩
 
 theorem getElem?_set_other {α} (l : List α) (j j' : Nat) (a : α) (h : j ≠ j') : (l.set j a)[j']? = l[j']? :=
   List.getElem?_set_ne h
@@ -185,9 +225,9 @@ theorem resumeCached_cur {st : RSetState} {tr : Track} (hg : Good st tr) (hco : 
       { tr with opened := tr.opened.set j (tr.muts, c + (((specL tr.m).drop c).take k).length) } := by
   obtain ⟨hi, hp⟩ := hg.cinv hco
   obtain ⟨hgen, it, hit, hq, hyl⟩ := hg.hc hco j h c hh ho
-  have hsolo : Solo st.cur h.tid := ⟨hi, fun t' it' _ h' => hp t' it' h'⟩
+  have hsolo : Solo st.cur h.tid := ⟨hi, fun t' it' _ h' => hp.1 t' it' h'⟩
   obtain ⟨hs', hsrc, hlen, hoth, it', hit', hq', hpk', hvals, hy'⟩ :=
-    takeVals_spec h.tid k st.cur it [] hsolo hit hq (hp _ it hit)
+    takeVals_spec h.tid k st.cur it [] hsolo hit hq (hp.1 _ it hit)
   have hcur : h.gen = st.old.length := by rw [hgen, hg.gens]
   unfold resumeCached
   simp only [hcur, ↓reduceIte]
@@ -195,7 +235,13 @@ theorem resumeCached_cur {st : RSetState} {tr : Track} (hg : Good st tr) (hco : 
   simp only [List.nil_append] at hvals
   have hcrash : it'.crash = none := (hs'.inv.linv _ it' hit').1
   refine ⟨?_, ⟨hg.m_eq, hg.msorted, hg.gens, ?_, hsrc.trans hg.src, ?_, ?_, fun h => by simp [hco] at h, ?_, ?_,
-    fun h => by simp [hco] at h⟩⟩
+    fun h => by simp [hco] at h, fun h => by simp [hco] at h, fun _ => hg.hgle hco, ?_, fun _ => hg.hdg hco⟩⟩
+  rotate_right
+  · intro _ j2 h2 hh2 hgn2
+    by_cases e : h2.tid = h.tid
+    · exact ⟨it', by rw [e]; exact hit', hq'⟩
+    · obtain ⟨it2, e2, e3⟩ := hg.hcg hco j2 h2 hh2 hgn2
+      exact ⟨it2, (hoth h2.tid e).trans e2, e3⟩
   · -- the observation
     show some (takeObs st.cur (takeVals st.cur h.tid k []).1 h.tid (takeVals st.cur h.tid k []).2) = _
     rw [hvals]
@@ -216,7 +262,7 @@ theorem resumeCached_cur {st : RSetState} {tr : Track} (hg : Good st tr) (hco : 
       cases ho'; exact Nat.le_refl _
     · rw [getElem?_set_other _ _ _ _ e] at ho'; exact hg.older j' m0 c' ho'
   · intro _
-    refine ⟨hs'.inv, fun t' it2 h2 => ?_⟩
+    refine ⟨hs'.inv, fun t' it2 h2 => ?_, (takeVals_endErr h.tid k st.cur [] hi).trans hp.2⟩
     by_cases e : t' = h.tid
     · subst e
       rw [show (takeVals st.cur h.tid k []).1.its[h.tid]? = some it' from hit'] at h2
@@ -262,10 +308,14 @@ theorem set_same {α} (l : List α) (j : Nat) (a : α) (h : l[j]? = some a) : l.
     | zero => simp only [List.getElem?_cons_zero, Option.some.injEq] at h; subst h; rfl
     | succ j => simp only [List.getElem?_cons_succ] at h; simp [List.set_cons_succ, ih j h]
 
-theorem lt_of_getElem? {α} {l : List α} {j : Nat} {a : α} (h : l[j]? = some a) : j < l.length := by
-  by_cases hc : j < l.length
-  · exact hc
-  · rw [List.getElem?_eq_none (Nat.le_of_not_lt hc)] at h; cases h
+theorem ite_len_src (b : Bool) (sh : Shared) (n : Nat) : (if b = true then { sh with len := some n } else sh).src = sh.src := by
+  cases b <;> rfl
+
+theorem ite_len_len (b : Bool) (sh : Shared) (n : Nat) (h : sh.len = none ∨ sh.len = some n) :
+    (if b = true then { sh with len := some n } else sh).len = none ∨ (if b = true then { sh with len := some n } else sh).len = some n := by
+  cases b
+  · exact h
+  · right; rfl
 
 /-- `list(islice(it_j, k))` on a kept `_iter()` generator of an uncached set, created after the last mutator -/
 theorem resumeUncached_cur {st : RSetState} {tr : Track} (hg : Good st tr) (hco : st.cacheOn = false)
@@ -299,11 +349,11 @@ theorem resumeUncached_cur {st : RSetState} {tr : Track} (hg : Good st tr) (hco 
     have hvl : vals.length = min k ((specL tr.m).length - c) := by
       rw [← hv, List.length_take, List.length_drop]
     refine ⟨trivial, ⟨hg.m_eq, hg.msorted, hg.gens, ?_, ?_, ?_, fun h => by simp [hco] at h, ?_,
-      fun h => by simp [hco] at h, fun h => by simp [hco] at h, ?_⟩⟩
+      fun h => by simp [hco] at h, fun h => by simp [hco] at h, ?_, ?_,
+      fun h => by simp [hco] at h, fun h => by simp [hco] at h, fun h => by simp [hco] at h⟩⟩
     · show (st.handles.set j _).length = (tr.opened.set j _).length
       rw [List.length_set, List.length_set]; exact hg.hlen
-    · show (if decide (vals.length < k) = true then _ else st.cur.sh).src = _
-      split <;> exact hg.src
+    · exact (ite_len_src _ _ _).trans hg.src
     · intro j' m0 c' ho'
       simp only [] at ho'
       by_cases e : j = j'
@@ -312,10 +362,7 @@ theorem resumeUncached_cur {st : RSetState} {tr : Track} (hg : Good st tr) (hco 
         cases ho'; exact Nat.le_refl _
       · rw [getElem?_set_other _ _ _ _ e] at ho'; exact hg.older j' m0 c' ho'
     · intro _
-      show (if decide (vals.length < k) = true then _ else st.cur.sh).len = none ∨ _
-      split
-      · right; rfl
-      · exact hg.ulen hco
+      exact ite_len_len _ _ _ (hg.ulen hco)
     · intro _ j' h2 c2 hh2 ho2
       simp only [] at hh2 ho2
       by_cases e : j = j'
@@ -327,6 +374,21 @@ theorem resumeUncached_cur {st : RSetState} {tr : Track} (hg : Good st tr) (hco 
         refine ⟨fun hf => by omega, fun hf => Or.inr ⟨trivial, trivial⟩⟩
       · rw [getElem?_set_other _ _ _ _ e] at hh2 ho2
         exact hg.hu hco j' h2 c2 hh2 ho2
+    · intro _ j' h2 hh2 hb2
+      simp only [] at hh2
+      by_cases e : j = j'
+      · subst e
+        rw [List.getElem?_set_self (lt_of_getElem? hh)] at hh2
+        cases hh2
+        simp only []
+        cases hus : h.usrc with
+        | none => simp
+        | some u =>
+          simp only [Option.isSome_some, ↓reduceIte]
+          have := hg.hgen hco j h hh (by rw [hus]; rfl)
+          exact ⟨this.1, fun _ => trivial⟩
+      · rw [getElem?_set_other _ _ _ _ e] at hh2
+        exact hg.hgen hco j' h2 hh2 hb2
 
 theorem set_append_last {α} (l : List α) (a b : α) : (l ++ [a]).set l.length b = l ++ [b] := by
   induction l with
@@ -359,7 +421,7 @@ theorem good_create_cached {st : RSetState} {tr : Track} (hg : Good st tr) (hco 
   have hs0 : Solo s0 st.cur.its.length := by
     refine ⟨hi0, fun t' it' e h => ?_⟩
     rcases getElem?_snoc_cases _ _ _ _ h with ⟨_, h'⟩ | ⟨e', _⟩
-    · exact hp t' it' h'
+    · exact hp.1 t' it' h'
     · exact absurd e' e
   obtain ⟨hs1, hsrc, hlen, hoth, it', hit', hq', hy', hpk'⟩ :=
     runCreate_spec st.cur.its.length 8 s0 _ hs0 hit0 rfl rfl
@@ -370,7 +432,28 @@ theorem good_create_cached {st : RSetState} {tr : Track} (hg : Good st tr) (hco 
     show (st.cur.its ++ [({ q := .iterAll } : Iter)])[t']? = _
     rw [List.getElem?_append_left hlt]
   refine ⟨hg.m_eq, hg.msorted, hg.gens, ?_, hsrc.trans hg.src, ?_, ?_, fun h => by simp [hco] at h, ?_, ?_,
-    fun h => by simp [hco] at h⟩
+    fun h => by simp [hco] at h, fun h => by simp [hco] at h, ?_, ?_, ?_⟩
+  rotate_right 3
+  · intro _ j h hh
+    rcases getElem?_snoc_cases _ _ _ _ hh with ⟨_, hh'⟩ | ⟨_, e⟩
+    · exact hg.hgle hco j h hh'
+    · subst e; exact Nat.le_refl _
+  · intro _ j h hh hgn
+    rcases getElem?_snoc_cases _ _ _ _ hh with ⟨_, hh'⟩ | ⟨_, e⟩
+    · obtain ⟨it2, e2, e3⟩ := hg.hcg hco j h hh' hgn
+      exact ⟨it2, (hold h.tid (lt_of_getElem? e2)).trans e2, e3⟩
+    · subst e; exact ⟨it', hit', hq'⟩
+  · intro _ j1 j2 h1 h2 hh1 hh2 g1 g2 htid
+    rcases getElem?_snoc_cases _ _ _ _ hh1 with ⟨hj1, hh1'⟩ | ⟨hj1, e1⟩ <;>
+      rcases getElem?_snoc_cases _ _ _ _ hh2 with ⟨hj2, hh2'⟩ | ⟨hj2, e2⟩
+    · exact hg.hdg hco j1 j2 h1 h2 hh1' hh2' g1 g2 htid
+    · obtain ⟨it2, e2', _⟩ := hg.hcg hco j1 h1 hh1' g1
+      have := lt_of_getElem? e2'
+      subst e2; simp only [] at htid; omega
+    · obtain ⟨it2, e2', _⟩ := hg.hcg hco j2 h2 hh2' g2
+      have := lt_of_getElem? e2'
+      subst e1; simp only [] at htid; omega
+    · rw [hj1, hj2]
   · show (st.handles ++ [_]).length = (tr.opened ++ [_]).length
     simp [hg.hlen]
   · intro j m0 c ho
@@ -378,7 +461,7 @@ theorem good_create_cached {st : RSetState} {tr : Track} (hg : Good st tr) (hco 
     · exact hg.older j m0 c h'
     · cases e; exact Nat.le_refl _
   · intro _
-    refine ⟨hs1.inv, fun t' it2 h2 => ?_⟩
+    refine ⟨hs1.inv, fun t' it2 h2 => ?_, (runCreate_endErr st.cur.its.length 8 s0 hi0).trans hp.2⟩
     by_cases e : t' = st.cur.its.length
     · subst e
       rw [show (runCreate s0 st.cur.its.length 8).its[st.cur.its.length]? = some it' from hit'] at h2
@@ -432,7 +515,8 @@ theorem good_create_cached {st : RSetState} {tr : Track} (hg : Good st tr) (hco 
 theorem good_create_uncached {st : RSetState} {tr : Track} (hg : Good st tr) (hco : st.cacheOn = false) :
     Good { st with handles := st.handles ++ [{}] } { tr with opened := tr.opened ++ [(tr.muts, 0)] } := by
   refine ⟨hg.m_eq, hg.msorted, hg.gens, ?_, hg.src, ?_, fun h => by simp [hco] at h, fun _ => hg.ulen hco,
-    fun h => by simp [hco] at h, fun h => by simp [hco] at h, ?_⟩
+    fun h => by simp [hco] at h, fun h => by simp [hco] at h, ?_, ?_,
+    fun h => by simp [hco] at h, fun h => by simp [hco] at h, fun h => by simp [hco] at h⟩
   · show (st.handles ++ [_]).length = (tr.opened ++ [_]).length
     simp [hg.hlen]
   · intro j m0 c ho
@@ -452,6 +536,10 @@ theorem good_create_uncached {st : RSetState} {tr : Track} (hg : Good st tr) (hc
         · cases e'; rfl
       subst e
       exact ⟨fun h => (by cases h), fun _ => Or.inl ⟨rfl, rfl, hc0⟩⟩
+  · intro _ j h hh hb
+    rcases getElem?_snoc_cases _ _ _ _ hh with ⟨_, hh'⟩ | ⟨_, e⟩
+    · exact hg.hgen hco j h hh' hb
+    · subst e; cases hb
 
 /-- one op that does not advance a stale iterator: the observation is the specified one -/
 theorem good_step {st : RSetState} {tr : Track} (hg : Good st tr) (op : Op) (hs : opSorted op)
@@ -544,6 +632,277 @@ theorem good_step {st : RSetState} {tr : Track} (hg : Good st tr) (op : Op) (hs 
       cases hco : st.cacheOn with
       | true => simp only [↓reduceIte]; exact resumeCached_cur hg hco j h c k hh ho
       | false => simp only [Bool.false_eq_true, ↓reduceIte]; exact resumeUncached_cur hg hco j h c k hh ho
+
+/-! ### iterators of earlier generations (since the repair of D-C10-stale they cannot touch the object) -/
+
+/-- the bookkeeping entry of an iterator created before the latest mutator constrains nothing -/
+theorem good_retrack {st : RSetState} {tr : Track} (hg : Good st tr) (j m0 c c' : Nat) (ho : tr.opened[j]? = some (m0, c))
+    (hne : m0 ≠ tr.muts) : Good st { tr with opened := tr.opened.set j (m0, c') } := by
+  have hj := lt_of_getElem? ho
+  have look : ∀ (j' c2 : Nat), (tr.opened.set j (m0, c'))[j']? = some (tr.muts, c2) → tr.opened[j']? = some (tr.muts, c2) := by
+    intro j' c2 h
+    by_cases e : j = j'
+    · subst e; rw [List.getElem?_set_self hj] at h; cases h; exact absurd rfl hne
+    · rw [getElem?_set_other _ _ _ _ e] at h; exact h
+  refine ⟨hg.m_eq, hg.msorted, hg.gens, ?_, hg.src, ?_, hg.cinv, hg.ulen, ?_, ?_, ?_, hg.hgen, hg.hgle, hg.hcg, hg.hdg⟩
+  · show st.handles.length = (tr.opened.set j _).length
+    rw [List.length_set]; exact hg.hlen
+  · intro j' m1 c1 h
+    simp only [] at h
+    by_cases e : j = j'
+    · subst e; rw [List.getElem?_set_self hj] at h; cases h; exact hg.older j m0 c ho
+    · rw [getElem?_set_other _ _ _ _ e] at h; exact hg.older j' m1 c1 h
+  · intro hco j' h c2 hh ho2; exact hg.hc hco j' h c2 hh (look j' c2 ho2)
+  · intro hco j1 j2 h1 h2 c1 c2 hh1 hh2 ho1 ho2 ht
+    exact hg.hd hco j1 j2 h1 h2 c1 c2 hh1 hh2 (look _ _ ho1) (look _ _ ho2) ht
+  · intro hco j' h c2 hh ho2; exact hg.hu hco j' h c2 hh (look j' c2 ho2)
+
+/-- an invalidated generation's machine may change freely: nothing of the object depends on it -/
+theorem good_set_old {st : RSetState} {tr : Track} (hg : Good st tr) (pos : Nat) (o' : Cache.State) :
+    Good { st with old := st.old.set pos o' } tr := by
+  have hl : (st.old.set pos o').length = st.old.length := List.length_set
+  refine ⟨hg.m_eq, hg.msorted, hl.trans hg.gens, hg.hlen, hg.src, hg.older, hg.cinv, hg.ulen, hg.hc, hg.hd, hg.hu, ?_, ?_, ?_, ?_⟩
+  · intro hco j h hh hb; show h.gen ≤ (st.old.set pos o').length ∧ (h.gen = (st.old.set pos o').length → _)
+    rw [hl]; exact hg.hgen hco j h hh hb
+  · intro hco j h hh; show h.gen ≤ (st.old.set pos o').length; rw [hl]; exact hg.hgle hco j h hh
+  · intro hco j h hh e; exact hg.hcg hco j h hh (by rw [← hl]; exact e)
+  · intro hco j j' h h' hh hh' e e'; exact hg.hdg hco j j' h h' hh hh' (by rw [← hl]; exact e) (by rw [← hl]; exact e')
+
+theorem ite_len_len' (b : Bool) (sh : Shared) (n L : Nat) (h : sh.len = none ∨ sh.len = some L) (hb : b = true → n = L) :
+    (if b = true then { sh with len := some n } else sh).len = none ∨ (if b = true then { sh with len := some n } else sh).len = some L := by
+  cases b
+  · exact h
+  · right; show some n = some L; rw [hb rfl]
+
+/-- an `_iter()` generator of an uncached set created before the latest mutator: whatever it does, the object stays good
+    (it publishes `_len` only when it was BOUND in the current generation, and then the right one) -/
+theorem good_stale_uncached {st : RSetState} {tr : Track} (hg : Good st tr) (hco : st.cacheOn = false)
+    (j : Nat) (h : Handle) (k m0 c : Nat) (hh : st.handles[j]? = some h) (ho : tr.opened[j]? = some (m0, c)) (hne : m0 ≠ tr.muts) :
+    Good (resumeUncached st j h k).1 tr := by
+  unfold resumeUncached
+  by_cases hstop : (k = 0 || h.udone) = true
+  · rw [if_pos hstop]; exact hg
+  · rw [if_neg hstop]
+    have hjlt := lt_of_getElem? hh
+    have hbound : ∀ u, h.usrc = some u → h.gen ≤ st.old.length ∧ (h.gen = st.old.length → u = specL tr.m) := by
+      intro u hu
+      have := hg.hgen hco j h hh (by rw [hu]; rfl)
+      refine ⟨this.1, fun e => ?_⟩
+      have := this.2 e
+      rw [hu] at this; cases this; rfl
+    refine ⟨hg.m_eq, hg.msorted, hg.gens, ?_, ?_, hg.older, fun h => by simp [hco] at h, ?_,
+      fun h => by simp [hco] at h, fun h => by simp [hco] at h, ?_, ?_,
+      fun h => by simp [hco] at h, fun h => by simp [hco] at h, fun h => by simp [hco] at h⟩
+    · show (st.handles.set j _).length = tr.opened.length
+      rw [List.length_set]; exact hg.hlen
+    · exact (ite_len_src _ _ _).trans hg.src
+    · intro _
+      apply ite_len_len' _ _ _ _ (hg.ulen hco)
+      intro hb
+      simp only [Bool.and_eq_true, beq_iff_eq] at hb
+      cases hus : h.usrc with
+      | none => simp only [Option.getD_none]; rw [hg.src]
+      | some u =>
+        have hb2 := hb.2
+        rw [hus] at hb2
+        simp only [Option.isSome_some, ↓reduceIte] at hb2
+        simp only [Option.getD_some]
+        rw [(hbound u hus).2 hb2]
+    · intro _ j' h2 c2 hh2 ho2
+      simp only [] at hh2
+      have e : j ≠ j' := by
+        intro e; subst e
+        rw [ho] at ho2; cases ho2; exact hne rfl
+      rw [getElem?_set_other _ _ _ _ e] at hh2
+      exact hg.hu hco j' h2 c2 hh2 ho2
+    · intro _ j' h2 hh2 hb2
+      simp only [] at hh2
+      by_cases e : j = j'
+      · subst e
+        rw [List.getElem?_set_self hjlt] at hh2
+        cases hh2
+        simp only []
+        cases hus : h.usrc with
+        | none => simp only [Option.isSome_none, Bool.false_eq_true, ↓reduceIte, Option.getD_none]
+                  exact ⟨Nat.le_refl _, fun _ => by rw [hg.src]⟩
+        | some u =>
+          simp only [Option.isSome_some, ↓reduceIte, Option.getD_some]
+          exact ⟨(hbound u hus).1, fun e => by rw [(hbound u hus).2 e]⟩
+      · rw [getElem?_set_other _ _ _ _ e] at hh2
+        exact hg.hgen hco j' h2 hh2 hb2
+
+/-- a plain iterator of the CURRENT generation that the bookkeeping does not follow (created before a mutator, first
+    advanced after it) is advanced on a machine `s0` that is the current one, possibly with that iterator just added:
+    the object stays good -/
+theorem good_run_extra {st : RSetState} {tr : Track} (hg : Good st tr) (hco : st.cacheOn = true) (j k : Nat)
+    (hstale : ∀ c, tr.opened[j]? ≠ some (tr.muts, c)) (hjlt : j < st.handles.length)
+    (s0 : Cache.State) (t : Tid) (it : Iter) (hi0 : Inv s0) (hp0 : ParkedAll s0) (he0 : s0.sh.endErr = none)
+    (hsrc0 : s0.sh.src = st.cur.sh.src)
+    (hold0 : ∀ t', t' < st.cur.its.length → t' ≠ t → s0.its[t']? = st.cur.its[t']?)
+    (hit : s0.its[t]? = some it) (hq : it.q = .iterAll) (h' : Handle) (hgen' : h'.gen = st.old.length) (htid' : h'.tid = t)
+    (hdist : ∀ (j' : Nat) (h2 : Handle), j' ≠ j → st.handles[j']? = some h2 → h2.gen = st.old.length → h2.tid ≠ t) :
+    Good { st with cur := (takeVals s0 t k []).1, handles := st.handles.set j h' } tr := by
+  have hsolo : Solo s0 t := ⟨hi0, fun t' it' _ h2 => hp0 t' it' h2⟩
+  obtain ⟨hs', hsrc, hlen, hoth, it', hit', hq', hpk', _, _⟩ := takeVals_spec t k s0 it [] hsolo hit hq (hp0 _ it hit)
+  have keep : ∀ (h2 : Handle) (it2 : Iter), h2.tid ≠ t → st.cur.its[h2.tid]? = some it2 →
+      (takeVals s0 t k []).1.its[h2.tid]? = some it2 := by
+    intro h2 it2 hne e2
+    rw [hoth h2.tid hne, hold0 h2.tid (lt_of_getElem? e2) hne]; exact e2
+  have other : ∀ (j' : Nat) (h2 : Handle), (st.handles.set j h')[j']? = some h2 → j' ≠ j → st.handles[j']? = some h2 := by
+    intro j' h2 hh2 e
+    rw [getElem?_set_other _ _ _ _ (Ne.symm e)] at hh2; exact hh2
+  have notj : ∀ (j' c2 : Nat), tr.opened[j']? = some (tr.muts, c2) → j' ≠ j := by
+    intro j' c2 ho2 e; subst e; exact hstale c2 ho2
+  refine ⟨hg.m_eq, hg.msorted, hg.gens, ?_, (hsrc.trans hsrc0).trans hg.src, hg.older, ?_, fun h => by simp [hco] at h, ?_, ?_,
+    fun h => by simp [hco] at h, fun h => by simp [hco] at h, ?_, ?_, ?_⟩
+  · show (st.handles.set j h').length = tr.opened.length
+    rw [List.length_set]; exact hg.hlen
+  · intro _
+    refine ⟨hs'.inv, fun t' it2 h2 => ?_, (takeVals_endErr t k s0 [] hi0).trans he0⟩
+    by_cases e : t' = t
+    · subst e
+      rw [show (takeVals s0 t' k []).1.its[t']? = some it' from hit'] at h2
+      cases h2; exact hpk'
+    · exact hs'.parked t' it2 e h2
+  · intro _ j' h2 c2 hh2 ho2
+    have e := notj j' c2 ho2
+    have hh2' := other j' h2 hh2 e
+    obtain ⟨e1, it2, e2, e3, e4⟩ := hg.hc hco j' h2 c2 hh2' ho2
+    exact ⟨e1, it2, keep h2 it2 (hdist j' h2 e hh2' (by rw [e1, hg.gens])) e2, e3, e4⟩
+  · intro _ j1 j2 h1 h2 c1 c2 hh1 hh2 ho1 ho2 ht
+    exact hg.hd hco j1 j2 h1 h2 c1 c2 (other j1 h1 hh1 (notj j1 c1 ho1)) (other j2 h2 hh2 (notj j2 c2 ho2)) ho1 ho2 ht
+  · intro _ j' h2 hh2
+    by_cases e : j' = j
+    · subst e
+      rw [List.getElem?_set_self hjlt] at hh2
+      cases hh2; rw [hgen']; exact Nat.le_refl _
+    · exact hg.hgle hco j' h2 (other j' h2 hh2 e)
+  · intro _ j' h2 hh2 g2
+    by_cases e : j' = j
+    · subst e
+      rw [List.getElem?_set_self hjlt] at hh2
+      cases hh2
+      exact ⟨it', by rw [htid']; exact hit', hq'⟩
+    · have hh2' := other j' h2 hh2 e
+      obtain ⟨it2, e2, e3⟩ := hg.hcg hco j' h2 hh2' g2
+      exact ⟨it2, keep h2 it2 (hdist j' h2 e hh2' g2) e2, e3⟩
+  · intro _ j1 j2 h1 h2 hh1 hh2 g1 g2 ht
+    by_cases e1 : j1 = j <;> by_cases e2 : j2 = j
+    · rw [e1, e2]
+    · subst e1
+      rw [List.getElem?_set_self hjlt] at hh1
+      cases hh1
+      exact absurd (ht.symm.trans htid') (hdist j2 h2 e2 (other j2 h2 hh2 e2) g2)
+    · subst e2
+      rw [List.getElem?_set_self hjlt] at hh2
+      cases hh2
+      exact absurd (ht.trans htid') (hdist j1 h1 e1 (other j1 h1 hh1 e1) g1)
+    · exact hg.hdg hco j1 j2 h1 h2 (other j1 h1 hh1 e1) (other j2 h2 hh2 e2) g1 g2 ht
+
+/-- an iterator of a cached set created before the latest mutator: whatever it does, the object stays good -/
+theorem good_stale_cached {st : RSetState} {tr : Track} (hg : Good st tr) (hco : st.cacheOn = true)
+    (j : Nat) (h : Handle) (k m0 c : Nat) (hh : st.handles[j]? = some h) (ho : tr.opened[j]? = some (m0, c)) (hne : m0 ≠ tr.muts) :
+    Good (resumeCached st j h k).1 tr := by
+  obtain ⟨hi, hp⟩ := hg.cinv hco
+  have hjlt := lt_of_getElem? hh
+  have hstale : ∀ c2, tr.opened[j]? ≠ some (tr.muts, c2) := by
+    intro c2 e; rw [ho] at e; cases e; exact hne rfl
+  unfold resumeCached
+  simp only []
+  by_cases hcur : h.gen = st.old.length
+  · -- it belongs to the current generation already
+    rw [if_pos hcur]
+    obtain ⟨it, hit, hq⟩ := hg.hcg hco j h hh hcur
+    have := good_run_extra hg hco j k hstale hjlt st.cur h.tid it hi hp.1 hp.2 rfl (fun _ _ _ => rfl) hit hq h hcur rfl
+      (fun j' h2 e hh2 g2 e2 => e (hg.hdg hco j' j h2 h hh2 hh g2 hcur e2))
+    rw [set_same _ _ _ hh] at this
+    exact this
+  · rw [if_neg hcur]
+    split
+    · exact hg
+    · rename_i o ho'
+      split
+      · exact hg
+      · rename_i it hit
+        split
+        · -- the generator body had not started: a fresh iterator of the current generation
+          let it0 : Iter := { q := .iterAll, pc := .l125 }
+          have hi0 : Inv { st.cur with its := st.cur.its ++ [it0] } :=
+            inv_add_iter hi it0 ⟨rfl, rfl, rfl, rfl⟩ rfl
+          have hp0 : ParkedAll { st.cur with its := st.cur.its ++ [it0] } := by
+            intro t' it' h2
+            rcases getElem?_snoc_cases _ _ _ _ h2 with ⟨_, h2'⟩ | ⟨_, e⟩
+            · exact hp.1 t' it' h2'
+            · subst e; rfl
+          exact good_run_extra hg hco j k hstale hjlt { st.cur with its := st.cur.its ++ [it0] } st.cur.its.length it0 hi0 hp0 hp.2 rfl
+            (fun t' hlt _ => by show (st.cur.its ++ [it0])[t']? = _; rw [List.getElem?_append_left hlt])
+            (getElem?_append_new _ _) rfl _ rfl rfl
+            (fun j' h2 _ hh2 g2 e2 => by
+              obtain ⟨it2, e3, _⟩ := hg.hcg hco j' h2 hh2 g2
+              have := lt_of_getElem? e3
+              omega)
+        · exact good_set_old hg _ _
+
+/-- the observation of this op is not specified: it advances an iterator created before an earlier mutator -/
+def staleAt (tr : Track) : Op → Bool
+  | .resume j _ => match tr.opened[j]? with | some (m0, _) => m0 != tr.muts | none => false
+  | _ => false
+
+/-- one op, ANY op: the object stays good; the observation is the specified one unless the op advances a stale iterator -/
+theorem good_step_any {st : RSetState} {tr : Track} (hg : Good st tr) (op : Op) (hs : opSorted op) (hfit : opFits tr op) :
+    (staleAt tr op = false → (applyOp st op).2 = (specStep tr op).2) ∧ Good (applyOp st op).1 (specStep tr op).1 := by
+  by_cases hst : staleAt tr op = false
+  · have hf : opFresh tr op := by
+      cases op with
+      | resume j k =>
+        intro m0 c ho
+        simp only [staleAt, ho, bne_eq_false_iff_eq] at hst
+        exact hst
+      | _ => trivial
+    exact ⟨fun _ => (good_step hg op hs hf hfit).1, (good_step hg op hs hf hfit).2⟩
+  · refine ⟨fun h => absurd h hst, ?_⟩
+    cases op with
+    | resume j k =>
+      simp only [staleAt] at hst
+      cases ho : tr.opened[j]? with
+      | none => rw [ho] at hst; exact absurd rfl hst
+      | some mc =>
+        obtain ⟨m0, c⟩ := mc
+        rw [ho] at hst
+        have hne : m0 ≠ tr.muts := by
+          intro e; apply hst; simp [e]
+        have hj : j < st.handles.length := by rw [hg.hlen]; exact lt_of_getElem? ho
+        have hh : st.handles[j]? = some st.handles[j] := List.getElem?_eq_getElem hj
+        simp only [applyOp, specStep, hh, ho]
+        have hg' := good_retrack hg j m0 c (c + (((specL tr.m).drop c).take k).length) ho hne
+        have ho' : ({ tr with opened := tr.opened.set j (m0, c + (((specL tr.m).drop c).take k).length) } : Track).opened[j]? =
+            some (m0, c + (((specL tr.m).drop c).take k).length) := List.getElem?_set_self (lt_of_getElem? ho)
+        cases hco : st.cacheOn with
+        | true =>
+          simp only [↓reduceIte]
+          exact good_stale_cached hg' hco j _ k m0 _ hh ho' hne
+        | false =>
+          simp only [Bool.false_eq_true, ↓reduceIte]
+          exact good_stale_uncached hg' hco j _ k m0 _ hh ho' hne
+    | _ => simp [staleAt] at hst
+
+/-- two observation lists agree wherever the op does not advance a stale iterator -/
+def Agree : Track → List Op → List (Option Res) → List (Option Res) → Prop
+  | _, [], [], [] => True
+  | tr, op :: ops, a :: as, b :: bs => (staleAt tr op = false → a = b) ∧ Agree (specStep tr op).1 ops as bs
+  | _, _, _, _ => False
+
+/-- **history_inv without `NoStale`** for an arbitrary starting point of the invariant -/
+theorem history_good_any : ∀ (ops : List Op) (st : RSetState) (tr : Track), Good st tr →
+    (∀ op ∈ ops, opSorted op) → AllFit tr ops → Agree tr ops (runOps st ops) (specOps tr ops) := by
+  intro ops
+  induction ops with
+  | nil => intro st tr _ _ _; trivial
+  | cons op ops ih =>
+    intro st tr hg hs hfit
+    obtain ⟨r1, r2⟩ := good_step_any hg op (hs op (by simp)) hfit.1
+    show Agree tr (op :: ops) ((applyOp st op).2 :: runOps (applyOp st op).1 ops) ((specStep tr op).2 :: specOps (specStep tr op).1 ops)
+    exact ⟨r1, ih _ _ r2 (fun o ho => hs o (by simp [ho])) hfit.2⟩
 
 /-- **history_inv** for an arbitrary starting point of the invariant -/
 theorem history_good : ∀ (ops : List Op) (st : RSetState) (tr : Track), Good st tr →
